@@ -62,8 +62,10 @@ def _alarm(signum, frame):
 
 
 class watchdog:
-    """Wall-clock watchdog, re-entrant (a hang is a violation, not a crash of the checker).
+    """CPU-time watchdog, re-entrant (a hang is a violation, not a crash of the checker).
 
+    Counts the process's CPU time (ITIMER_PROF), not wall-clock time: a runaway loop in the library burns CPU and is caught, while a
+    machine that is merely busy (other checks running) cannot turn a slow case into a false "hang".
     Raises CaseTimeout (a BaseException, so that library code catching Exception cannot swallow it)."""
 
     def __init__(self, seconds: float):
@@ -72,17 +74,17 @@ class watchdog:
         self.t0 = 0.0
 
     def __enter__(self):
-        signal.signal(signal.SIGALRM, _alarm)
-        self.prev = signal.getitimer(signal.ITIMER_REAL)[0]
-        self.t0 = time.time()
-        signal.setitimer(signal.ITIMER_REAL, self.seconds)
+        signal.signal(signal.SIGPROF, _alarm)
+        self.prev = signal.getitimer(signal.ITIMER_PROF)[0]
+        self.t0 = time.process_time()
+        signal.setitimer(signal.ITIMER_PROF, self.seconds)
         return self
 
     def __exit__(self, *a):
         if self.prev > 0:
-            signal.setitimer(signal.ITIMER_REAL, max(0.01, self.prev - (time.time() - self.t0)))
+            signal.setitimer(signal.ITIMER_PROF, max(0.01, self.prev - (time.process_time() - self.t0)))
         else:
-            signal.setitimer(signal.ITIMER_REAL, 0)
+            signal.setitimer(signal.ITIMER_PROF, 0)
         return False
 
 
